@@ -1,6 +1,7 @@
 package props
 
 import (
+	"reflect"
 	"bytes"
 	"context"
 	"encoding/binary"
@@ -972,6 +973,23 @@ func runAccessorPrograms(b *fw.B, rootsMode bool) {
 				if o != s {
 					b.Inc("copies_checked_unchanged")
 				}
+				if op%4 == 0 {
+					// Raw(): the whole state converted to its struct form must hold the same content
+					var rawBytes []byte
+					var rawErr error
+					have := false
+					if !b.NoPanic("Raw/panic/"+fork, func() { rawBytes, rawErr, have = stateRawBytes(a.spec, o.st) }) {
+						bad = true
+						break
+					}
+					if have {
+						b.Inc("state_raw_conversions")
+						if rawErr != nil || !bytes.Equal(rawBytes, want) {
+							viol("getter/Raw", fmt.Sprintf("after %s on the %s: Raw() of the %s %s state does not hold the state's content (err %v): %v", desc, s.name, o.name, fork, rawErr, rs.DiffBytes(sc, want, rawBytes, 6)))
+							break
+						}
+					}
+				}
 				if rootsMode || op%5 == 0 {
 					var root common.Root
 					if !b.NoPanic("root/panic/"+fork, func() { root = o.st.HashTreeRoot(tree.GetHashFn()) }) {
@@ -1135,4 +1153,23 @@ func scribbleExecHeader(parentHash *common.Hash32, stateRoot, receiptsRoot, prev
 	for i := range extra {
 		extra[i] ^= 0xff
 	}
+}
+
+// stateRawBytes calls the state view's Raw(spec) (struct form of the whole state) and serializes the result.
+func stateRawBytes(spec *common.Spec, st common.BeaconState) (data []byte, err error, have bool) {
+	m := reflect.ValueOf(st).MethodByName("Raw")
+	if !m.IsValid() || m.Type().NumIn() != 1 || m.Type().NumOut() != 2 {
+		return nil, nil, false
+	}
+	out := m.Call([]reflect.Value{reflect.ValueOf(spec)})
+	if !out[1].IsNil() {
+		return nil, out[1].Interface().(error), true
+	}
+	obj, ok := out[0].Interface().(common.SpecObj)
+	if !ok {
+		return nil, nil, false
+	}
+	var buf bytes.Buffer
+	err = obj.Serialize(spec, codec.NewEncodingWriter(&buf))
+	return buf.Bytes(), err, true
 }
